@@ -268,6 +268,7 @@ def run_groups(prop, cfg, tier):
                                 "reason": "no result: " + r["out"].strip()[-300:]})
             h["bound"] = b["bound"]
             h["group"] = b["group"]
+            h["args"] = b.get("args")
             h["time_s"] = round(r["wall_s"], 1) if len(bnames) == 1 else h.get("time_s")
             result["bounded"].append(h)
     return result
@@ -275,7 +276,11 @@ def run_groups(prop, cfg, tier):
 
 def concrete_playback(src, harness, extra_args=None, timeout=1800, group=None):
     """ask Kani for concrete values of a failing harness (printed as a unit test)"""
-    r = run_kani(src, [harness], extra_args=(extra_args or []) + ["-Z", "concrete-playback", "--concrete-playback=print"], timeout=timeout, group=group)
+    # the playback flags belong to cargo-kani: they must come before a trailing `--cbmc-args ...`
+    ea = list(extra_args or [])
+    cut = ea.index("--cbmc-args") if "--cbmc-args" in ea else len(ea)
+    ea = ea[:cut] + ["-Z", "concrete-playback", "--concrete-playback=print"] + ea[cut:]
+    r = run_kani(src, [harness], extra_args=ea, timeout=timeout, group=group)
     m = re.search(r"Concrete playback unit test for `[^`]*`:\n```\n(.*?)```", r["out"], re.S)
     return m.group(1) if m else None
 
